@@ -8,7 +8,7 @@ from checks.c12 import verbrun, eval_batched
 IFS, IPS = b"\x1f", b"\x1e"
 SEPARGS = ["--ifs", "\x1f", "--ips", "\x1e", "--ofs", "\x1f", "--ops", "\x1e"]
 NAMES = [b"a", b"b", b"c", b"x", b"y", b"id", b"k", b"L_a", b"R_a", b"j", b"j2", b"lj", b"rj", b"\xc3\xa9", b"a.b"]
-KEYVALS = [b"", b"1", b"2", b"3", b"10", b"a", b"b", b"A", b"ab", b"1", b"2", b"x,y", b" ", b"01"]
+KEYVALS = [b"", b"1", b"2", b"3", b"10", b"a", b"b", b"A", b"ab", b"1", b"2", b"x,y", b" ", b"01", b"a!"]
 VALS = [b"", b"1", b"2", b"p", b"q", b"r", b"0x10", b"1e3", b"x y", b"\xc3\xa9", b"l", b"w"]
 
 
@@ -144,6 +144,36 @@ def exactly_once(c, out):
             if None in occ and len(occ) > 1:
                 return ("join-exactly-once", "a %s record is emitted as unpaired and also paired / twice as unpaired" % name)
     return None
+
+
+def fixed_cases():
+    """hand-made sorted-mode inputs run through the same pipeline (model correspondence + oracles) on every run"""
+    base = dict(lp=b"", rp=b"", lk=None, np=False, ul=True, ur=True, ie=False, sorted=True, presorted=True, fmt="dkvp")
+    two = dict(base, lj=[b"j", b"j2"], rj=[b"j", b"j2"], oj=[b"j", b"j2"])
+    one = dict(base, lj=[b"id"], rj=[b"id"], oj=[b"id"])
+    out = []
+    # field-by-field order differs from the order of the comma-joined text ('!' < ','): -s documents the former
+    out.append(dict(two, left=[[(b"j", b"a"), (b"j2", b"x"), (b"l", b"1")], [(b"j", b"a!"), (b"j2", b"x"), (b"l", b"2")]],
+                    right=[[(b"j", b"a"), (b"j2", b"x"), (b"r", b"3")], [(b"j", b"a!"), (b"j2", b"x"), (b"r", b"4")]]))
+    # key-less left records at the beginning, inside a run of equal keys, between runs, at the end
+    nk = lambda t: [(b"l", t)]
+    L = [nk(b"k0"), [(b"id", b"1"), (b"l", b"a")], nk(b"k1"), [(b"id", b"1"), (b"l", b"b")], nk(b"k2"), [(b"id", b"2"), (b"l", b"c")],
+         nk(b"k3"), [(b"id", b"4"), (b"l", b"d")], nk(b"k4")]
+    R = [[(b"r", b"nokey")], [(b"id", b"0"), (b"r", b"p")], [(b"id", b"1"), (b"r", b"q")], [(b"id", b"1"), (b"r", b"s")], [(b"id", b"3"), (b"r", b"t")],
+         [(b"id", b"4"), (b"r", b"u")], [(b"id", b"5"), (b"r", b"v")]]
+    for ul in (True, False):
+        for np_ in (False, True):
+            out.append(dict(one, left=L, right=R, ul=ul, np=np_))
+    # empty keys: key-less under --ignore-empty (never paired), ordinary smallest key without it
+    Le = [[(b"id", b""), (b"l", b"e0")], [(b"id", b"1"), (b"l", b"a")], [(b"id", b""), (b"l", b"e1")], [(b"id", b"2"), (b"l", b"b")]]
+    Re = [[(b"id", b""), (b"r", b"e")], [(b"id", b"1"), (b"r", b"q")], [(b"id", b"2"), (b"r", b"s")]]
+    out.append(dict(one, left=Le, right=Re, ie=True))
+    out.append(dict(one, left=sorted(Le, key=lambda r: dict(r)[b"id"]), right=Re, ie=False))
+    # -s on unsorted input: key 1 comes back after key 2 (tagged: exactly-once accounting)
+    U = dict(one, presorted=False, left=[[(b"id", b"1"), (b"l", b"a")], [(b"id", b"2"), (b"l", b"b")], [(b"id", b"1"), (b"l", b"c")], [(b"l", b"d")]],
+             right=[[(b"id", b"1"), (b"r", b"p")], [(b"id", b"2"), (b"r", b"q")], [(b"id", b"1"), (b"r", b"s")], [(b"id", b"0"), (b"r", b"t")]])
+    out += [U, tagged(U, True)]
+    return out
 
 
 def csvl(fs):
@@ -344,6 +374,7 @@ def run(ctx):
     nt = 60 if ctx.tier == "quick" else 600
     base = [c for c in cases if c["left"] and c["right"]][:nt]
     cases += [tagged(c, True) for c in base] + [tagged(c, False) for c in base]
+    cases += fixed_cases()
     tmpdir = tempfile.mkdtemp(prefix="verif-c13-")
     try:
         with ctx.timed("impl"):
